@@ -44,6 +44,7 @@ type MStep struct {
 	Slot int    `json:"slot"`
 	Val  string `json:"val,omitempty"`
 	Node int    `json:"node,omitempty"`
+	TTL  int    `json:"ttl_s,omitempty"` // lifetime given to set / setlist, seconds (0 = none); never reached within a case
 }
 
 type MCase struct {
@@ -330,7 +331,7 @@ func runModel(c MCase) mresult {
 		var call func()
 		switch op {
 		case "set":
-			call = func() { err = h.Set(key, st.Val, 0) }
+			call = func() { err = h.Set(key, st.Val, time.Duration(st.TTL)*time.Second) }
 		case "get":
 			call = func() { v, e := h.Get(key); got, err = valStr(v, e), e }
 		case "delete":
@@ -338,7 +339,7 @@ func runModel(c MCase) mresult {
 		case "exists":
 			call = func() { v, e := h.Exists(key); got, err = fmt.Sprint(v), e }
 		case "setlist":
-			call = func() { err = h.SetList(key, []any{st.Val, "z"}, 0) }
+			call = func() { err = h.SetList(key, []any{st.Val, "z"}, time.Duration(st.TTL)*time.Second) }
 		case "getlist":
 			call = func() {
 				v, e := h.GetList(key)
@@ -589,6 +590,7 @@ func genModelCase(t *rapid.T) MCase {
 			Slot: rapid.IntRange(0, len(c.Keys)-1).Draw(t, "slot"),
 			Val:  rapid.SampledFrom([]string{"a", "b", "c"}).Draw(t, "val"),
 			Node: rapid.IntRange(0, 1).Draw(t, "node"),
+			TTL:  rapid.SampledFrom([]int{0, 0, 0, 20, 59, 60, 600, 7200}).Draw(t, "ttl"),
 		})
 	}
 	if rapid.IntRange(0, 2).Draw(t, "faulty") == 0 {
